@@ -275,7 +275,7 @@ def subterms(t):
     stack = [t]
     while stack:
         x = stack.pop()
-        if isinstance(x, tuple):
+        if isinstance(x, tuple) and x:
             yield x
             for y in x[1:]:
                 if isinstance(y, tuple):
@@ -814,6 +814,14 @@ class Executor:
                 fr, fn, loc, pj = p[1]
                 return ("ref", (fr, fn, loc, pj + (("v", "Some"), ("f", 0, ""))), True)
             return None
+        m = re.match(r"^(?:std::option::)?Option::<.*>::(ok_or_else|ok_or)(?:::<.*>)?$", c)
+        if m:
+            self.summaries_used.add("Option::ok_or / ok_or_else")
+            x = args[0]
+            d = disc_of(x, E)
+            some = ("variant", "Result", "Ok", (proj(proj(x, ("v", "Some"), E), ("f", 0), E),))
+            err = ("variant", "Result", "Err", ((("app", "call_once", (self.export(st, args[1]),)) if m.group(1) == "ok_or_else" else args[1]),))
+            return ite(self.binop("Eq", d, C("int", 1)), some, err)
         if re.match(r"^<.* as Default>::default$", c):
             self.summaries_used.add("Default::default (a constant per type)")
             m = re.match(r"^<(.*) as Default>::default$", c)
@@ -1038,7 +1046,30 @@ class Executor:
             outs.append(Outcome("diverge", None, st, info, func))
             return None
         res = None
-        if self.summaries:
+        mu = re.match(r"^(?:std::option::|std::result::)?(Option|Result)::<.*>::(unwrap|expect)$", callee)
+        if mu and self.summaries:
+            self.summaries_used.add("%s::%s (forks: value / panic)" % (mu.group(1), mu.group(2)))
+            x = args[0]
+            d = disc_of(x, self.enums)
+            good, gv = (1, "Some") if mu.group(1) == "Option" else (0, "Ok")
+            s2 = st.copy()
+            bad_ok = True
+            if d[0] == "c":
+                bad_ok = d[2] != good
+            else:
+                bad_ok = s2.assume_ne(d, {good}) if not (d[0] == "ite") else True
+            if bad_ok and not (d[0] == "c" and d[2] == good):
+                info = {"callee": fs, "raw": callee, "panic": True, "args": tuple(self.export(s2, a) for a in args)}
+                s2.events.append(("diverge", fs, info["args"], None))
+                outs.append(Outcome("diverge", None, s2, info, func))
+            if d[0] == "c":
+                if d[2] != good:
+                    return None
+            elif d[0] != "ite":
+                if not st.assume_eq(d, good):
+                    return None
+            res = proj(proj(x, ("v", gv), self.enums), ("f", 0), self.enums)
+        if res is None and self.summaries:
             res = self.summary(st, fr, func, callee, args, argops)
         if res is None:
             target = self.resolve(callee, len(args)) if depth < self.max_inline_depth else None
